@@ -153,7 +153,7 @@ static void check_frame(const uni::Spec & spec, const std::set<uint32_t> & pad, 
         report("C03", sk + "|decode-fails", std::string("decoding the emitted bytes ") + (threw ? "throws" : "runs past the end / seeks before the start"), lab);
     else if (in.g != E.size())
         report("C03", sk + "|decode-consumes", "decoding consumed " + std::to_string(in.g) + " of " + std::to_string(E.size()) + " emitted bytes", lab);
-    if (!threw) {
+    if (!threw && !spec.overlong) {   /* a payload beyond its length field cannot round-trip; its framing must still be consistent */
         /* (g) codec round trip on every serialised field */
         std::vector<rv::Item> d1 = rv::dump(*o), d2 = rv::dump(*o2);
         std::set<std::string> ser;
@@ -496,6 +496,7 @@ int main(int argc, char ** argv) {
             if (mode == "frame") {
                 uni::Options uo;
                 uo.big = args.num("big", 0) != 0;
+                uo.overlong = args.num("overlong", 0) != 0;
                 std::vector<uni::Spec> U = uni::universe(uo, c.name);
                 for (size_t i = 0; i < U.size(); i++) {
                     if (args.num("list", 0)) { printf("%s\n", U[i].label().c_str()); continue; }
